@@ -38,6 +38,26 @@ Theorem c09_extraction_never_panics : forall valid chunks buf,
 Proof. intros. split; [apply c09_feed_np_proof|apply parse_frame_np]. Qed.
 Print Assumptions c09_extraction_never_panics.
 
+(* the socket reader of the session (Connection::read_frame in the read loop): whatever is already buffered, and however the rest of
+   the stream arrives - coalesced into one read, one octet at a time, the close straight behind the last octet -, every message comes
+   out once, in order, and then the close is reported; a close inside a message is an error after the messages before it *)
+Theorem c09_socket_reader : forall valid msgs chunks b,
+  Forall (wf_frame valid) msgs -> Forall (fun c => c <> []) chunks -> b ++ concat chunks = concat msgs ->
+  read_all valid (S (length msgs)) b chunks = (msgs, RdEof).
+Proof. exact c09_reader_proof. Qed.
+Print Assumptions c09_socket_reader.
+
+Theorem c09_socket_reader_cut : forall valid msgs chunks b t m,
+  Forall (wf_frame valid) msgs -> wf_frame valid m -> Forall (fun c => c <> []) chunks -> (exists y, y <> [] /\ t ++ y = m) -> t <> [] ->
+  b ++ concat chunks = concat msgs ++ t ->
+  read_all valid (S (length msgs)) b chunks = (msgs, RdErr).
+Proof. exact c09_reader_cut_proof. Qed.
+Print Assumptions c09_socket_reader_cut.
+
+Theorem c09_socket_reader_never_panics : forall valid fuel buf reads, snd (read_all valid fuel buf reads) <> RdPanic.
+Proof. exact c09_reader_np_proof. Qed.
+Print Assumptions c09_socket_reader_never_panics.
+
 Theorem c09_blocking_reader : forall h avail hi lo,
   read_message h avail <> Panic /\
   (length h = 18%nat -> nth_error h 16 = Some hi -> nth_error h 17 = Some lo ->
@@ -57,3 +77,9 @@ Example c09_example :
   let ka := repeat 255%N 16 ++ [0; 19; 4]%N in
   feed (fun _ => true) [] [firstn 7 ka; skipn 7 ka ++ firstn 18 ka; skipn 18 ka] = Ok ([ka; ka], []).
 Proof. vm_compute. reflexivity. Qed.
+
+Example c09_reader_example :
+  let ka := repeat 255%N 16 ++ [0; 19; 4]%N in
+  read_all (fun _ => true) 3 [] [ka ++ ka] = ([ka; ka], RdEof) /\
+  read_all (fun _ => true) 3 (firstn 5 ka) [skipn 5 ka ++ ka ++ firstn 3 ka] = ([ka; ka], RdErr).
+Proof. vm_compute. split; reflexivity. Qed.
